@@ -174,11 +174,14 @@ type Episode struct {
 
 const episodePtsCap = 2500000
 
-func genEpisode(seed uint64, worker, idx int, pool []*Op, refs []Ref) *Episode {
+func genEpisode(seed uint64, worker, idx int, pool []*Op, refs []Ref, force string) *Episode {
 	r := NewRng(seed, lbl("episode"), uint64(worker), uint64(idx))
 	ep := &Episode{Idx: idx, SSeed: r.U64()}
 	fam := r.Pick(35, 35, 20, 10)
 	ep.Family = []string{"rand", "twins", "pct", "seq"}[fam]
+	if force != "" {
+		ep.Family = force
+	}
 	T := []int{2, 2, 2, 3, 3, 4, 4, 5, 6, 8}[r.Intn(10)]
 	k := r.Range(1, 5)
 	switch ep.Family {
@@ -281,6 +284,8 @@ type concArgs struct {
 	dur      time.Duration
 	caseFile string
 	trace    bool
+	family   string
+	dumpep   bool
 }
 
 func loadRefs(path string, n int) []Ref {
@@ -673,7 +678,18 @@ func concMain(a concArgs) int {
 		if fixed != nil {
 			ep = fixed
 		} else {
-			ep = genEpisode(a.seed, a.worker, idx, pool, refs)
+			ep = genEpisode(a.seed, a.worker, idx, pool, refs, a.family)
+		}
+		if a.dumpep {
+			ep2 := *ep
+			ep2.Ops = map[string]*Op{}
+			for _, list := range ep.Clients {
+				for _, pi := range list {
+					ep2.Ops[fmt.Sprint(pi)] = pool[pi]
+				}
+			}
+			emit(map[string]interface{}{"t": "episode", "episode": &ep2})
+			return 0
 		}
 		emit(map[string]interface{}{"t": "ep-start", "idx": ep.Idx, "family": ep.Family, "clients": len(ep.Clients)})
 		v := runEpisode(ep, pool, refs, st, &a)
